@@ -520,6 +520,8 @@ func (c *Call) cliArgs(threads int) (args []string, stdin string, outfile string
 		return p
 	}
 	outfile = filepath.Join(dir, "out.txt")
+	// the output path already exists and holds more than any output of these runs: it must be replaced, not overwritten in place
+	os.WriteFile(outfile, []byte(strings.Repeat("stale content of an earlier, longer run\n", 400)), 0644)
 	if threads == 0 {
 		threads = c.threads()
 	}
@@ -578,6 +580,9 @@ func (c *Call) cliArgs(threads int) (args []string, stdin string, outfile string
 		args = []string{"variants", "-a", w("anno."+c.AnnoSuffix, c.Anno), "-o", outfile, "-t", t}
 		if c.Stdin {
 			stdin = c.Msa
+			if cliSeq%2 == 0 {
+				args = append(args, "--msa", "stdin") // the documented default, spelled out
+			}
 		} else {
 			args = append(args, "--msa", w("msa.fasta", c.Msa))
 		}
@@ -610,7 +615,7 @@ func (c *Call) cliArgs(threads int) (args []string, stdin string, outfile string
 			args = append(args, "--table")
 		}
 		if len(c.Ignore) > 0 {
-			args = append(args, "--ignore", w("ignore.txt", strings.Join(c.Ignore, "\n")+"\n"))
+			args = append(args, "--ignore", w("ignore.txt", strings.Join(c.Ignore, "\n\n")+"\n\n")) // (blank lines between and after the IDs)
 		}
 		for _, kv := range []struct {
 			k string
